@@ -76,6 +76,19 @@ func balCases(tier string) []balCase {
 	for i := 0; i < nc; i++ {
 		cs = append(cs, balCase{kind: "chain", n: 10})
 	}
+	// sticky, one step from a settled plan: 3 members x 3 topics, every mixed
+	// subscription pattern, then every single change (one member's subscription,
+	// a fourth member joining with any subscription, any member leaving).
+	// thorough enumerates all partition-count vectors up to 6; quick draws some.
+	if tier == "thorough" {
+		for v := 0; v < 216; v++ {
+			cs = append(cs, balCase{kind: "step", strat: "sticky", m: 3, t: 3, maxP: 6, n: 1, subIdx: v})
+		}
+	} else {
+		for i := 0; i < 32; i++ {
+			cs = append(cs, balCase{kind: "step", strat: "sticky", m: 3, t: 3, maxP: 6, n: 1, subIdx: -1})
+		}
+	}
 	return cs
 }
 
@@ -561,6 +574,8 @@ func (e *balanceEngine) Run(prop, tier string, seed int64, idx int) proto.Rec {
 		for i := 0; i < c.n; i++ {
 			e.chain(r, rng)
 		}
+	case "step":
+		e.step(r, c, rng)
 	}
 	rec := proto.Rec{ID: fmt.Sprintf("%s/%s/%d/%d:%s-%s-m%d-t%d", prop, tier, seed, idx, c.kind, c.strat, c.m, c.t),
 		Evals: r.evals, Viols: r.viols, Obs: r.obs, Sample: r.sample}
@@ -983,6 +998,95 @@ func (e *balanceEngine) chain(r *balRun, rng *rand.Rand) {
 		}
 		restrictToSubscribed(next)
 		in = next
+	}
+}
+
+// step: every single change applied to every settled plan of a small mixed group.
+func (e *balanceEngine) step(r *balRun, c balCase, rng *rand.Rand) {
+	topicNames := []string{"a", "bb", "ccc"}
+	v := c.subIdx
+	if v < 0 {
+		v = rng.Intn(ipow(c.maxP, 3))
+	}
+	counts := map[string]int{}
+	for _, t := range topicNames {
+		counts[t] = 1 + v%c.maxP
+		v /= c.maxP
+	}
+	subsOf := func(mask int) []string {
+		var ts []string
+		for k, t := range topicNames {
+			if mask&(1<<uint(k)) != 0 {
+				ts = append(ts, t)
+			}
+		}
+		return ts
+	}
+	setTopics := func(in *balInput) {
+		in.topics = map[string][]int32{}
+		for _, md := range in.members {
+			for _, t := range md.Topics {
+				in.topics[t] = seqParts(counts[t])
+			}
+		}
+	}
+	for si := 0; si < 343; si++ {
+		in := &balInput{strat: "sticky", members: map[string]sarama.ConsumerGroupMemberMetadata{}, prior: "none"}
+		masks := make([]int, 3)
+		y := si
+		for i := 0; i < 3; i++ {
+			masks[i] = 1 + y%7
+			y /= 7
+			in.members[memberName(0, i)] = sarama.ConsumerGroupMemberMetadata{Topics: subsOf(masks[i])}
+		}
+		setTopics(in)
+		plan, ok := r.plan(in)
+		if !ok {
+			return
+		}
+		r.check(in, plan)
+		try := func(change, joined string, mutate func(next *balInput)) bool {
+			next := withUserData(in, plan, 1, si%2 == 0)
+			next.prior = "step-" + change
+			mutate(next)
+			setTopics(next)
+			p2, ok := r.plan(next)
+			if !ok {
+				return false
+			}
+			r.check(next, p2)
+			if r.prop == "C13" {
+				r.stickiness(in, plan, next, p2, change, joined)
+			}
+			return true
+		}
+		for i := 0; i < 3; i++ {
+			id := memberName(0, i)
+			for mask := 1; mask <= 7; mask++ {
+				if mask == masks[i] {
+					continue
+				}
+				mask := mask
+				if !try("subs", "", func(next *balInput) {
+					md := next.members[id]
+					md.Topics = subsOf(mask)
+					next.members[id] = md
+				}) {
+					return
+				}
+			}
+			if !try("leave", "", func(next *balInput) { delete(next.members, id) }) {
+				return
+			}
+		}
+		for mask := 1; mask <= 7; mask++ {
+			mask := mask
+			if !try("join", "m3", func(next *balInput) {
+				next.members["m3"] = sarama.ConsumerGroupMemberMetadata{Topics: subsOf(mask)}
+			}) {
+				return
+			}
+		}
 	}
 }
 
